@@ -299,6 +299,12 @@ def cases(tier):
                 yield {'fam': 'flat', 'handlers': names, 'br': br,
                        'hr': None, 'else': None,
                        'syntax': SYNTAXES[idx % 3]}
+    for rows in (50, 201, 250, 450):
+        for act in ('raise', 'return', 'raise-tag'):
+            for wrap in ('except', 'finally'):
+                idx += 1
+                yield {'fam': 'many', 'rows': rows, 'act': act, 'wrap': wrap,
+                       'syntax': SYNTAXES[idx % 3]}
     # finally
     for ba in [None, 'return'] + CLS:
         for fa in [None, 'return'] + CLS:
@@ -409,6 +415,27 @@ def build(case):
                 node[3] = []
             else:
                 node[2][int(e[1:])][1] = []
+    elif fam == 'many':
+        # scale: hundreds of handled exceptions / returns in one rendering,
+        # raised inside documents called by name; the 250th is handled like
+        # the first
+        ns = namespace()
+        ns['rows'] = ['seq', 'list', [['lit', i] for i in
+                                      range(case['rows'])]]
+        act = {'raise': [['var', N('raiseHB'), []]],
+               'return': [['return', N('rv')]],
+               'raise-tag': [['raise', E('HBc'), [T('m')]]]}[case['act']]
+        ns['sub'] = ['tmpl', [T('s'), ['if', [[
+            E("_['sequence-item'] % 2 == 0"), act]], None], T('S')], {}]
+        if case['wrap'] == 'except':
+            inner = ['try', [T('t'), ['var', N('sub'), []], T('T')],
+                     [[['HA'], [T('h'), ['var', N('error_type'), []]]]],
+                     [T('e')]]
+        else:
+            inner = ['try', [['tryf', [T('t'), ['var', N('sub'), []]],
+                              [T('f')]]], [[[], [T('g')]]], None]
+        return [T('<'), ['in', N('rows'), [inner], None, []], T('>')] + \
+            AFTER, ns
     elif fam == 'fin':
         node = fin_try(case['ba'], case['fa'])
         for e in case.get('empty', []):
